@@ -19,12 +19,12 @@ def w_progs(case, opts):
     orig = ctx._to_python
     depth = [0]
 
-    def spy(v):
+    def spy(v, *rest):
         if depth[0] == 0:
             raw.append(v)
         depth[0] += 1
         try:
-            return orig(v)
+            return orig(v, *rest)
         finally:
             depth[0] -= 1
     ctx._to_python = spy
